@@ -9,7 +9,7 @@ VERIF = os.path.dirname(os.path.abspath(__file__))
 # id -> (level category, engine, technique, level text, level note, design ref)
 CHECKS = {
     "C01": ("exploration", "E-ENV",
-            "stateless exhaustive exploration of Read/Write answer tapes (deviation-bounded) on the real encrypt/decrypt loops Plus CLI round trips (files and pipes, three key pairs incl. self, lengths 0/1/1000/cs/cs+1, output paths fresh or already holding longer files, keyring with case/prefix decoy names). FILE arguments that are named pipes. Executions that do not repeat their call sequence under identical environment answers are judged by the oracle, not skipped.",
+            "stateless exhaustive exploration of Read/Write answer tapes (deviation-bounded) on the real encrypt/decrypt loops Plus CLI round trips (files and pipes, three key pairs incl. self, lengths 0/1/1000/cs/cs+1, output paths fresh or already holding longer files, keyring with case/prefix decoy names). FILE arguments that are named pipes. Executions that do not repeat their call sequence under identical environment answers are judged by the oracle, not skipped. Zero-filled data shapes in the CLI round trips; every ordered pair/triple of {password encrypt, password decrypt, key encrypt, key decrypt} on a fresh thread, each step checked against REF.",
             "Every partition of every plaintext length 0..3*cs+1 into reads (exhaustive, chunk sizes 1..4/5 through the hooked loops) "
             "and every short-read/short-write schedule within the stated budgets at production size through key_encrypt/key_decrypt "
             "is executed; each execution must round-trip exactly and name the sender. Exploration level: the schedule space is "
@@ -17,14 +17,14 @@ CHECKS = {
             "Keys/plaintext bytes from seed-derived alphabets; lengths beyond 3*cs+1 by the periodicity argument in DESIGN.md; REF (OpenSSL) is used as a cross-check reader.",
             "DESIGN.md §6 C01"),
     "C02": ("exploration", "E-ENV",
-            "stateless exhaustive exploration of Read/Write answer tapes on the chunk loops with the password-mode AAD; exhaustive password-pair grid through the public API and the CLI The pair grid runs for a 30-byte and for the empty plaintext; CLI round trips into fresh and pre-existing longer output files. CLI round trips with KESTREL_NEW_PASSWORD holding another password.",
+            "stateless exhaustive exploration of Read/Write answer tapes on the chunk loops with the password-mode AAD; exhaustive password-pair grid through the public API and the CLI The pair grid runs for a 30-byte and for the empty plaintext; CLI round trips into fresh and pre-existing longer output files. CLI round trips with KESTREL_NEW_PASSWORD holding another password. Ordered pairs of an 8-word alphabet of byte passwords (not valid UTF-8) through `password decrypt`.",
             "Tiny scope as C01 with AAD = magic (every read partition, bounded write partitions, both loops) plus mismatched key/AAD combinations (must reject and release nothing); "
             "all ordered pairs of a 12-word byte-string password alphabet x salts through pass_encrypt/pass_decrypt (same => exact round trip, different => Err and zero bytes released); "
             "lengths x bounded short-I/O schedules through the public API; all ordered pairs of a 12-word UTF-8 alphabet through `kestrel password encrypt|decrypt --env-pass`.",
             "Password/plaintext values from fixed alphabets; the four HMAC-equivalent password pairs are a recorded known finding (KNOWN_FINDINGS.txt).",
             "DESIGN.md §6 C02"),
     "C03": ("model_checking", "E-GRAPH",
-            "explicit-state breadth-first search (stateright) over ciphertext edits with the real decryptor run in every state, plus deviation-bounded words of REF-minted records Also: fabricated zero-length records, corpora whose final chunk is exactly chunk-size, a 2x64 KiB production file with every kind of extension, and a CLI level (13 authentic/edited variants x {key, password} x {-o fresh, -o pre-existing longer file, stdout}). CLI level x {FILE argument, stdin pipe, named pipe}; short-count sinks: Ok implies the sink received all of P for every schedule with <=1 short read and <=2 short writes.",
+            "explicit-state breadth-first search (stateright) over ciphertext edits with the real decryptor run in every state, plus deviation-bounded words of REF-minted records Also: fabricated zero-length records, corpora whose final chunk is exactly chunk-size, a 2x64 KiB production file with every kind of extension, and a CLI level (13 authentic/edited variants x {key, password} x {-o fresh, -o pre-existing longer file, stdout}). CLI level x {FILE argument, stdin pipe, named pipe}; short-count sinks: Ok implies the sink received all of P for every schedule with <=1 short read and <=2 short writes. Authentic files whose last chunk is 64 KiB of zeros through the CLI; authentic files ending in 00 / 00 00 (found by search): every proper prefix rejected.",
             "States are byte strings reachable from REF-written authentic files (key mode, password mode, hooked loop) by <=2 (quick) / <=3 (thorough) "
             "edits from a ~300-letter alphabet (every bit and every truncation offset at depth 1; splices of records and header fields of other "
             "authentic files, reorder/duplicate/drop, counter/flag/length rewrites, re-framing). In every state the real decryptor runs and its "
@@ -41,7 +41,7 @@ CHECKS = {
             "Final-chunk-before-trailing-data order deliberately unconstrained; corpus written by REF; AEAD unforgeability assumed.",
             "DESIGN.md §6 C04"),
     "C05": ("exploration", "E-GRID",
-            "exhaustive enumeration of key-role assignments (real encryptor and an independent REF forger), field mixes and special X25519 encodings Plus: claimed sender = each small-order point, a keyless reader trying publicly derivable secrets on files made with library-chosen randomness, and a 48-file sequence of auto-keyed encryptions in one thread (no recipient reads another's file). The keyless reader also runs on whatever `kestrel encrypt` produces under every answer schedule of getrandom(2) (LD_PRELOAD shim: per call index persistent failure / EINTR / EAGAIN / 1-byte answer). CLI: the keyring named by -k decides which keys are used and which sender is named, with a decoy keyring of the same names in KESTREL_KEYRING.",
+            "exhaustive enumeration of key-role assignments (real encryptor and an independent REF forger), field mixes and special X25519 encodings Plus: claimed sender = each small-order point, a keyless reader trying publicly derivable secrets on files made with library-chosen randomness, and a 48-file sequence of auto-keyed encryptions in one thread (no recipient reads another's file). The keyless reader also runs on whatever `kestrel encrypt` produces under every answer schedule of getrandom(2) (LD_PRELOAD shim: per call index persistent failure / EINTR / EAGAIN / 1-byte answer). CLI: the keyring named by -k decides which keys are used and which sender is named, with a decoy keyring of the same names in KESTREL_KEYRING. Keyring entries named Bob / BOB / bo / bobb next to bob: `-t bob` addresses bob's key.",
             "All 4^4 (private key used, public key claimed, recipient addressed, decrypting key) tuples through the real key_encrypt/key_decrypt; the same tuples through a REF forger "
             "with 9 forging degrees (claimed != used, ss skipped/zero/from e, recipient hashed != used, es/ss to another recipient, ephemeral mismatch); all 2^4 mixes of "
             "(e, enc_s, enc_payload, chunks) from pairs of authentic files; all 52 small-order and non-canonical u-coordinates as recipient of key_encrypt (refused with zero bytes written, "
@@ -49,14 +49,14 @@ CHECKS = {
             "DH hardness assumed; 4-key seed-derived alphabet.",
             "DESIGN.md §6 C05"),
     "C06": ("exploration", "E-GRID",
-            "exhaustive enumeration of (length x read partition x key set) and (length x chunking) products against the executable specification REF, byte for byte Plus passwords at the HMAC block boundary, a recipient key encoded with bit 255 set, and CLI-level password-file conformance in both directions for passwords with blanks and line ends.",
+            "exhaustive enumeration of (length x read partition x key set) and (length x chunking) products against the executable specification REF, byte for byte Plus passwords at the HMAC block boundary, a recipient key encoded with bit 255 set, and CLI-level password-file conformance in both directions for passwords with blanks and line ends. REF-written files with odd chunkings (short non-final chunks, 1-byte chunks) decrypted through the CLI in three wirings; ordered call pairs on fresh threads compared with REF byte for byte.",
             "Encrypt side: every read partition of every L<=10 (key mode, public API, injected ephemeral/payload key), boundary lengths, password mode, and every "
             "partition in the hooked loop: Rust bytes == REF bytes. Decrypt side: REF-written files for every composition of L<=8 into chunk sizes, mixtures of {1,2,cs-1,cs}, "
             ">=66000 one-byte chunks (counter reaches the third nonce byte on both paths), nonce layout across the 64-bit range, frozen golden files.",
             "REF (OpenSSL-based, self-tested against RFC vectors and the cacophony Noise-X vector) is the meaning of 'documented format'; only two genuine 1.x artefacts exist.",
             "DESIGN.md §6 C06"),
     "C07": ("model_checking", "E-GRAPH",
-            "explicit-state breadth-first search (stateright) over operation histories, each history executed on the real library/CLI; RNG-seam perturbation of every delivered byte; per-file nonce check Plus 150/600 rounds of repeated library operations in one thread and the per-file nonce check under every schedule with <=2 interrupted calls. Every CLI operation that draws randomness runs twice under every answer schedule of getrandom(2) (LD_PRELOAD shim: per call index persistent failure / EINTR / EAGAIN / 1-byte answer; 1-byte answers throughout): a run may refuse, any exit-0 output must still be fresh. Fresh threads drawing concurrently (values differ across threads too); four keys generated into one keyring file have four salts and four private keys.",
+            "explicit-state breadth-first search (stateright) over operation histories, each history executed on the real library/CLI; RNG-seam perturbation of every delivered byte; per-file nonce check Plus 150/600 rounds of repeated library operations in one thread and the per-file nonce check under every schedule with <=2 interrupted calls. Every CLI operation that draws randomness runs twice under every answer schedule of getrandom(2) (LD_PRELOAD shim: per call index persistent failure / EINTR / EAGAIN / 1-byte answer; 1-byte answers throughout): a run may refuse, any exit-0 output must still be fresh. Fresh threads drawing concurrently (values differ across threads too); four keys generated into one keyring file have four salts and four private keys. Files of 300 to 70 000 chunks at chunk size 1-2: record i opens under nonce i and under none of 12 related nonces; non-blocking stdin whose writer pauses.",
             "States are operation histories of length <=2 (quick) / <=3 (thorough) over six randomness-consuming operations with identical inputs (library and CLI); in every state the history "
             "is executed and all fresh values (ephemeral, payload and file keys recovered by REF, salts, generated private keys) must be pairwise distinct and differ from given values. "
             "Through the RNG seam every byte of the CSPRNG stream is perturbed: outputs are a deterministic function of the stream and each fresh field depends on >=32 stream positions. "
@@ -64,7 +64,7 @@ CHECKS = {
             "getrandom quality trusted; CLI operations use the real CSPRNG (verdict re-checked once before reporting).",
             "DESIGN.md §6 C07"),
     "C08": ("exploration", "E-GRID",
-            "exhaustive product enumeration of identity pairs x plaintexts x partitions with pairwise differential comparison; byte-pattern scan; CLI product Plaintext offered on stdin in five shapes (beginning with lines equal to the password) x {password from environment, no password source} x {stdout, -o}: any file produced is the conforming encryption of the whole of stdin. 48-file run with library-chosen ephemeral keys (field never repeats, never a party key); non-blocking stdout pipe with slow readers: exit 0 implies the prescribed file.",
+            "exhaustive product enumeration of identity pairs x plaintexts x partitions with pairwise differential comparison; byte-pattern scan; CLI product Plaintext offered on stdin in five shapes (beginning with lines equal to the password) x {password from environment, no password source} x {stdout, -o}: any file produced is the conforming encryption of the whole of stdin. 48-file run with library-chosen ephemeral keys (field never repeats, never a party key); non-blocking stdout pipe with slow readers: exit 0 implies the prescribed file. Plaintext named through symbolic links and ./.. spellings; a source that interrupts read call k (k = 0..9): Ok implies the prescribed length.",
             "All 16 ordered (sender, recipient) pairs x 3 plaintexts x up to 4 read partitions x 2 payload keys with one fixed ephemeral key: files that differ only in identities are compared "
             "pairwise (identical magic, e, chunk headers and length; length == 132/36 + 32*records + |P|); every file is scanned for every party's key (raw, hex, keyring encoding, base64 in any "
             "byte phase and both alphabets) and must be read back completely by REF; all four (ephemeral, ephemeral_public) option combinations; password mode; CLI for all 9 ordered pairs "
@@ -72,7 +72,7 @@ CHECKS = {
             "Identity values from a seed-derived alphabet; names >= 12 bytes so chance occurrences in ciphertext are negligible (< 2^-70).",
             "DESIGN.md §6 C08"),
     "C09": ("exploration", "E-GRID",
-            "exhaustive enumeration per untrusted-input surface, heap accounting on hostile header fields, and exhaustive enumeration of CLI argument vectors as real processes Plus authentic handshakes with every payload length 0..80, handshakes carrying each special X25519 point as ephemeral or sender key, and the full product of value classes per CLI argument slot (4 952 vectors in quick).",
+            "exhaustive enumeration per untrusted-input surface, heap accounting on hostile header fields, and exhaustive enumeration of CLI argument vectors as real processes Plus authentic handshakes with every payload length 0..80, handshakes carrying each special X25519 point as ephemeral or sender key, and the full product of value classes per CLI argument slot (4 952 vectors in quick). Authentic records (sealed by REF) with unusual flag / counter / length field values; option-junk grid (31 malformed, multi-byte and non-UTF-8 option spellings x 12 command lines x 2 positions).",
             "Every byte string of length <=2 and every prefix of authentic files (both decrypt entry points), every message length 0..200/65535/65536/70000 for noise_decrypt, every length 0..80 for "
             "the AEAD wrappers, every length 0..130 x character class plus single-character substitutions and insertions for encoded keys, every single-bit and boundary value of each chunk-header "
             "field and every header bit under a counting allocator (peak heap below a fixed cap; exactly one 32 MiB scrypt allocation in password mode), and every argument vector of length <=3 "
@@ -80,7 +80,7 @@ CHECKS = {
             "Keyring parser surface enumerated by C17; stdin is /dev/null and there is no controlling terminal; 30 s wall limit per process; thorough argv enumeration has an internal wall cap that is reported.",
             "DESIGN.md §6 C09"),
     "C10": ("fault_enumeration", "E-ENV",
-            "exhaustive fault injection: every fault kind at every read/write/flush call index, on top of bounded short-I/O schedules; CLI-level real I/O failures CLI: input on a stdin pipe delivered in pieces (first k bytes alone for a boundary set of k; byte by byte) gives the whole-file result. Thorough: two faults per execution on the smallest scopes.",
+            "exhaustive fault injection: every fault kind at every read/write/flush call index, on top of bounded short-I/O schedules; CLI-level real I/O failures CLI: input on a stdin pipe delivered in pieces (first k bytes alone for a boundary set of k; byte by byte) gives the whole-file result. Thorough: two faults per execution on the smallest scopes. CLI: stdin is a Unix stream socket whose peer dies (one ECONNRESET, then EOF).",
             "For every explored run and every call index k, each fault (Interrupted/Other on read, Ok(0)/Interrupted/Other on write, "
             "Interrupted/Other on flush) is injected at k; the result must be the error of the failing side (or success after a retried "
             "interruption with complete output), never a panic, and the bytes written must be a prefix of the fault-free continuation, "
@@ -88,7 +88,7 @@ CHECKS = {
             "At most one hard fault per execution; data values from seed-derived alphabets; CLI cases use the real CSPRNG so only verdicts (not bytes) are compared.",
             "DESIGN.md §6 C10"),
     "C11": ("exploration", "E-GRID",
-            "exhaustive enumeration of a size x direction x mode x read-schedule grid under a counting allocator with read/write lag monitors; CLI streams with RSS from wait4 Plus trailing garbage up to 16/128 MiB after a valid stream (same peak heap), FIFO given as FILE argument, and a non-blocking stdout pipe with a stalled reader. -o FILE (fresh or pre-existing) must grow while input is still arriving; decryption of streams whose chunks all differ in length has a peak heap independent of their number.",
+            "exhaustive enumeration of a size x direction x mode x read-schedule grid under a counting allocator with read/write lag monitors; CLI streams with RSS from wait4 Plus trailing garbage up to 16/128 MiB after a valid stream (same peak heap), FIFO given as FILE argument, and a non-blocking stdout pipe with a stalled reader. -o FILE (fresh or pre-existing) must grow while input is still arriving; decryption of streams whose chunks all differ in length has a peak heap independent of their number. Blocking stdout pipe whose reader sleeps 1.5 s (input taken meanwhile < 2 MiB); hostile length fields (0xFFFFFFF0.., 2^31, cs+1) followed by 1-64 MiB.",
             "Both directions x {chunk loop, key mode, password mode} x sizes n*64KiB+d (n up to 64; thorough 1024 and 16384 = 1 GiB) x {64 KiB, 1 KiB} pieces from non-allocating synthetic sources into "
             "parsing/counting sinks: peak live heap must be identical (+-4 KiB) for all sizes >= 2 chunks and below a fixed cap, and every chunk's output must complete before more than two further "
             "chunks of input were consumed (measured in chunks of the actual stream and in bytes). CLI: all four streaming commands fed 8/64 MiB (thorough up to 256 MiB) through stdin with a short first "
@@ -96,7 +96,7 @@ CHECKS = {
             "Extrapolation beyond the largest size by the loop-state-independence argument; per-thread heap accounting.",
             "DESIGN.md §6 C11"),
     "C12": ("exploration", "E-PROC",
-            "exhaustive product of logical cases x 64 I/O/option wirings of the real CLI with a reference model and a differential oracle across wirings Extra wirings per logical case: decoy environment variables, stdout = /dev/full or a closed pipe, stdin delivered in pieces.",
+            "exhaustive product of logical cases x 64 I/O/option wirings of the real CLI with a reference model and a differential oracle across wirings Extra wirings per logical case: decoy environment variables, stdout = /dev/full or a closed pipe, stdin delivered in pieces. Logical cases: file encrypted to oneself; forged {last, len 0} record with arbitrary tag bytes; password from the environment while stdin is a terminal (found the --env-pass retry loop, repaired in 5e475fa).",
             "33 logical cases (valid/invalid inputs for decrypt, encrypt, password encrypt/decrypt; keyrings with the sender first/last/absent and decoy entries sharing 24-character key prefixes/suffixes "
             "and name prefixes/extensions/case variants) x the full product {file argument|stdin} x {-o|stdout} x {-k|KESTREL_KEYRING} x {long|short options} x {command|alias} x {options before|after}: "
             "exit 0 iff the reference CLI model says the operation completes; plaintext compared byte for byte; produced files validated by REF; the sender line must name exactly the entry whose key equals "
@@ -104,7 +104,7 @@ CHECKS = {
             "Terminal-attached branches are exercised through a pseudo-terminal, not a real terminal emulator.",
             "DESIGN.md §6 C12"),
     "C13": ("fault_enumeration", "E-PROC",
-            "exhaustive product of commands x failure causes x prior state of the output path on the real CLI, comparing the path before and after Plus 17-chunk (>1 MiB) files failing in chunk 10, password lines on a stdin pipe without --env-pass, and later-chunk failures with the password typed at a pseudo-terminal. Third prior state: the output path is a symbolic link to an existing file. Damage sweep: every byte change and truncation of small authentic files and a position grid in the later records of 3-chunk and short-chunk files; REF decides the authenticated prefix that must be at the output path.",
+            "exhaustive product of commands x failure causes x prior state of the output path on the real CLI, comparing the path before and after Plus 17-chunk (>1 MiB) files failing in chunk 10, password lines on a stdin pipe without --env-pass, and later-chunk failures with the password typed at a pseudo-terminal. Third prior state: the output path is a symbolic link to an existing file. Damage sweep: every byte change and truncation of small authentic files and a position grid in the later records of 3-chunk and short-chunk files; REF decides the authenticated prefix that must be at the output path. Damage-sweep bases with all-zero and zero-middle chunks.",
             "85 (command, failure cause) cases over encrypt, decrypt, password encrypt, password decrypt and key generate — bad arguments, missing input, missing/absent/malformed keyring, unknown name, "
             "missing private key, wrong password, unset password variable, no password source, wrong magic, corrupted header fields, corrupted/truncated first chunk, empty input, low-order recipient, "
             "output path equal to input path, wrong-mode file — x {path absent, path present with 200000 sentinel bytes}: exit 1, path untouched. Later-chunk failures (corrupt chunk 2/3, truncation in chunk 3, "
@@ -112,7 +112,7 @@ CHECKS = {
             "Bytes are compared, not inode/mtime; both orders are accepted for trailing data after the final chunk.",
             "DESIGN.md §6 C13"),
     "C14": ("model_checking", "E-GRAPH",
-            "explicit-state breadth-first search over `key generate` command histories (stateright::Model, level-synchronous parallel BFS), every state executed by the real CLI Initial state \"keyring behind a symbolic link\"; in-process sequence of 24/72 generations in one thread through the CLI crate's keyring module.",
+            "explicit-state breadth-first search over `key generate` command histories (stateright::Model, level-synchronous parallel BFS), every state executed by the real CLI Initial state \"keyring behind a symbolic link\"; in-process sequence of 24/72 generations in one thread through the CLI crate's keyring module. Names at the 128-byte limit (multi-byte) typed onto an existing keyring; in-process sequence with real locks under passwords of falling and rising length, verified by REF.",
             "States are (initial keyring file state, sequence of <=2 (quick) / <=3 (thorough) `kestrel key generate -o F --env-pass` commands) over 7 initial states (absent, empty, with/without final "
             "newline, comments and blank lines, non-ASCII comment without final newline, CRLF), 3 names (one non-ASCII, one with a space) and 3 passwords. Each state's last command runs on the memoised "
             "file of the parent history; the invariant: previous bytes are a prefix, the file parses for the real parser and for REF, every generated key is present, unlocks (REF) under its own "
@@ -120,14 +120,14 @@ CHECKS = {
             "Real CSPRNG in the CLI: bytes differ between runs, verdicts may not (re-executed once before reporting).",
             "DESIGN.md §6 C14"),
     "C15": ("exploration", "E-GRID",
-            "exhaustive enumeration of (key x password x salt), password pairs, all 672 single-bit changes and string shapes against the REF implementation of the documented locked-key format CLI level: `key extract-pub` for all ordered pairs of a 14-word UTF-8 password alphabet and `key change-pass` to each of its words (result must unlock under REF with exactly that password). CLI: every single-bit change of a locked key is refused by `key extract-pub` (673 runs). All ordered pairs of an 8-word alphabet of byte passwords that are not valid UTF-8, through KESTREL_PASSWORD.",
+            "exhaustive enumeration of (key x password x salt), password pairs, all 672 single-bit changes and string shapes against the REF implementation of the documented locked-key format CLI level: `key extract-pub` for all ordered pairs of a 14-word UTF-8 password alphabet and `key change-pass` to each of its words (result must unlock under REF with exactly that password). CLI: every single-bit change of a locked key is refused by `key extract-pub` (673 runs). All ordered pairs of an 8-word alphabet of byte passwords that are not valid UTF-8, through KESTREL_PASSWORD. Keyring PrivateKey values = genuine locked key + 7 suffixes; 69-byte password and its NUL-extended twin.",
             "lock_private_key/unlock_private_key compiled from the working tree: Rust lock == REF lock byte for byte; round trip both ways between Rust and REF (incl. non-clamped keys); "
             "all ordered password pairs reject; every single-bit change of the 84-byte blob rejects; every string length 0..130 and every single-character substitution from a class alphabet "
             "is rejected or agrees with REF, without panic.",
             "One scrypt per point bounds the grid; HMAC-equivalent password pairs are a recorded known finding.",
             "DESIGN.md §6 C15"),
     "C16": ("model_checking", "E-GRAPH",
-            "explicit-state breadth-first search over change-pass / extract-pub / use command histories (stateright::Model, level-synchronous parallel BFS), every state executed by the real CLI against a reference model Initial state generated with a decoy KESTREL_NEW_PASSWORD; in-process rotation of 24/72 password changes in one thread (fresh salts, raw key never inside a locked string).",
+            "explicit-state breadth-first search over change-pass / extract-pub / use command histories (stateright::Model, level-synchronous parallel BFS), every state executed by the real CLI against a reference model Initial state generated with a decoy KESTREL_NEW_PASSWORD; in-process rotation of 24/72 password changes in one thread (fresh salts, raw key never inside a locked string). Given keys chosen by value (all bytes equal, XOR zero, all ones, integer 1); byte passwords as old and new password of change-pass.",
             "States are histories of <=2 (quick) / <=3 (thorough) commands from {change-pass(old,new) for every ordered password pair incl. wrong old password and new == old, extract-pub(w), "
             "encrypt+decrypt with the key} over 4 (thorough 5) passwords (empty, unicode, trailing space, 70 chars), starting from a given key and from a CLI-generated key. The reference model tracks "
             "(private key, current password, salts seen); after every command: the newest string unlocks (REF) under the newest password to the original key, earlier different passwords fail, the salt is new, "
@@ -135,7 +135,7 @@ CHECKS = {
             "Real CSPRNG in the CLI (verdict re-checked once); REF implements the documented locked-key format.",
             "DESIGN.md §6 C16"),
     "C17": ("exploration", "E-GRID",
-            "exhaustive enumeration of line-token sequences, decorated lines, line-shape grid, tool-written names and key strings against a reference reading of the keyring format Plus every sequence of <=4/5 complete sections over a 12-section alphabet (non-adjacent duplicates, bad-checksum copies, case variants) and names typed at `kestrel key generate` reading back as written. CLI level through the public interface only: `kestrel decrypt` with every sequence of <=2/3 complete sections (12-section alphabet incl. bad-checksum copies and case variants) plus the recipient section, for three senders, must refuse bad keyrings and name the sender exactly as the file says. If the internal API of src/cli/src/keyring.rs changes so that the in-process adapter no longer compiles, ./check rebuilds without it and the CLI-level parts decide (recorded in the evidence).",
+            "exhaustive enumeration of line-token sequences, decorated lines, line-shape grid, tool-written names and key strings against a reference reading of the keyring format Plus every sequence of <=4/5 complete sections over a 12-section alphabet (non-adjacent duplicates, bad-checksum copies, case variants) and names typed at `kestrel key generate` reading back as written. CLI level through the public interface only: `kestrel decrypt` with every sequence of <=2/3 complete sections (12-section alphabet incl. bad-checksum copies and case variants) plus the recipient section, for three senders, must refuse bad keyrings and name the sender exactly as the file says. If the internal API of src/cli/src/keyring.rs changes so that the in-process adapter no longer compiles, ./check rebuilds without it and the CLI-level parts decide (recorded in the evidence). Keyring files with 70 / 300 KiB of comment lines before, between and after the sections.",
             "Every sequence of <=6 (quick) / <=7 (thorough) lines over a 14-token alphabet, every sequence of <=3/4 decorated lines, a single-line shape grid (every ASCII length 0..140 followed by "
             "multi-byte characters, in every line role), the serialize->parse round trip for every name of <=3 characters over a 9-character alphabet plus boundary lengths, and every "
             "single-character substitution / checksum perturbation of encoded public keys: the real parser (compiled from the working tree) must never crash, must reject texts that "
@@ -143,21 +143,21 @@ CHECKS = {
             "Texts using constructs the statement leaves open (duplicate field in a section, field outside a section, junk, no section) are only checked for 'no crash'.",
             "DESIGN.md §6 C17"),
     "C18": ("exploration", "E-GRID",
-            "exhaustive enumeration of the scrypt parameter grid and axes against OpenSSL, through the library and through the exported C function with guard bytes Plus every output-buffer alignment mod 8, all ordered pairs of 12 tuples called consecutively on one thread, and output buffers aliasing an input. scrypt in child processes under a grid of address-space limits bracketing the table size, library and C ABI, several inputs per limit: a value that is returned is the RFC 7914 value.",
+            "exhaustive enumeration of the scrypt parameter grid and axes against OpenSSL, through the library and through the exported C function with guard bytes Plus every output-buffer alignment mod 8, all ordered pairs of 12 tuples called consecutively on one thread, and output buffers aliasing an input. scrypt in child processes under a grid of address-space limits bracketing the table size, library and C ABI, several inputs per limit: a value that is returned is the RFC 7914 value. Every call of the exported C function runs in a child process (begin/end per tuple), so an abort or heap corruption becomes a finding attributed to its tuple.",
             "Full product N in 2..2^9/2^10 x r 1..8 x p 1..4 x 8 output lengths, every axis swept alone (N to 2^15, r to 16, p to 8, dkLen 1..200), corner tuples, a 12x12 password/salt length grid "
             "with trailing-NUL variants; every tuple through kestrel_crypto::scrypt and (all in thorough, the cheap ones plus (2^15,8,1) in quick) through the cdylib's `scrypt` symbol loaded with dlopen, "
             "output and input buffers surrounded by guard bytes.",
             "OpenSSL EVP_PBE_scrypt is the RFC 7914 reference; byte values from seed-derived alphabets; N <= 2^15.",
             "DESIGN.md §6 C18"),
     "C19": ("exploration", "E-GRID",
-            "exhaustive enumeration of input-shape grids against an OpenSSL reference model Plus AEAD bodies up to 70 000 B / 1 MiB and sequences of scalars related by the clamping bits. All one-byte neighbours (bytes 0 and 31) of the small-order points; HKDF length x fill grid for salt, ikm and info.",
+            "exhaustive enumeration of input-shape grids against an OpenSSL reference model Plus AEAD bodies up to 70 000 B / 1 MiB and sequences of scalars related by the clamping bits. All one-byte neighbours (bytes 0 and 31) of the small-order points; HKDF length x fill grid for salt, ikm and info. A Noise AEAD record opens under its own counter only (byte-swapped, rotated, shifted, neighbouring counters refused); 2048/16384 nonces x 4 keys x five 1-3 byte plaintexts through RFC 8439 seal/open.",
             "Every point of the stated length/shape grids (AEAD 0..130 x 0..40, every single-bit alteration, all short inputs, "
             "all special X25519 points x scalars, HKDF lengths 1..8160, HMAC/SHA-256 lengths 0..200, Noise counters across the "
             "64-bit range) is executed on the real functions and compared with OpenSSL; nothing is sampled.",
             "Data values come from seed-derived alphabets; OpenSSL libcrypto is trusted as the RFC reference; arithmetic is orion's.",
             "DESIGN.md §6 C19"),
     "C20": ("model_checking", "E-GRAPH",
-            "explicit-state breadth-first search (stateright) over construct/clone/drop programs, each executed on the real containers under an inspecting allocator Operations also include clone_from and a PayloadKey at an odd address; a labelled sampling pass drops original and clone concurrently on two threads (supplementary). Heap blocks allocated by key_encrypt / key_decrypt and still alive after they return are searched for the payload key and the private keys; an LD_PRELOAD exit-time monitor searches the heap of the CLI process for the raw private key in 8 wirings (success, error, broken pipe, /dev/full).",
+            "explicit-state breadth-first search (stateright) over construct/clone/drop programs, each executed on the real containers under an inspecting allocator Operations also include clone_from and a PayloadKey at an odd address; a labelled sampling pass drops original and clone concurrently on two threads (supplementary). Heap blocks allocated by key_encrypt / key_decrypt and still alive after they return are searched for the payload key and the private keys; an LD_PRELOAD exit-time monitor searches the heap of the CLI process for the raw private key in 8 wirings (success, error, broken pipe, /dev/full). Explicit zeroize() as a program operation; 15 exit-scan wirings.",
             "States are programs of <=4 (quick) / <=5 (thorough) operations on 3 slots from {PrivateKey::try_from, PrivateKey::generate, PayloadKey::new, clone, drop, drop during panic unwinding, "
             "pass to noise_encrypt} over two key values (one containing zero bytes). Every program is executed from scratch; the global allocator copies the 32 watched bytes of each instance at the "
             "moment their heap block is deallocated: they must be all zero, one release per dropped instance, and live instances keep their bytes.",
